@@ -28,8 +28,9 @@ type Site struct {
 	ID   int    `json:"id"`
 	File string `json:"file"`
 	Line int    `json:"line"`
-	Kind string `json:"kind"` // func | funclit | for | range
+	Kind string `json:"kind"` // func | funclit | for | range | stmt | atomic
 	Func string `json:"func"`
+	Hot  bool   `json:"hot,omitempty"` // follows an atomic or lock operation
 }
 
 // Construct is a piece of syntax the controlled scheduler cannot own.
@@ -223,7 +224,8 @@ func instrumentTree(dir, verifsimSrc string, wrapExpr bool) (*InstrumentReport, 
 					if !isEmpty && !isCase && !isComm {
 						id := next
 						next++
-						rep.Sites = append(rep.Sites, Site{ID: id, File: rel, Line: fset.Position(st.Pos()).Line, Kind: "stmt", Func: curFn()})
+						hot := k > 0 && hasSyncCall(list[k-1])
+						rep.Sites = append(rep.Sites, Site{ID: id, File: rel, Line: fset.Position(st.Pos()).Line, Kind: "stmt", Func: curFn(), Hot: hot})
 						add(st.Pos(), fmt.Sprintf("verifsim.Yield(%d);", id))
 					}
 				}
@@ -325,7 +327,7 @@ func instrumentTree(dir, verifsimSrc string, wrapExpr bool) (*InstrumentReport, 
 					// the expression: verifsim.After(site, <call>)
 					id := next
 					next++
-					rep.Sites = append(rep.Sites, Site{ID: id, File: rel, Line: fset.Position(x.Pos()).Line, Kind: "atomic", Func: curFn()})
+					rep.Sites = append(rep.Sites, Site{ID: id, File: rel, Line: fset.Position(x.Pos()).Line, Kind: "atomic", Func: curFn(), Hot: true})
 					add(x.Pos(), fmt.Sprintf("verifsim.After(%d,", id))
 					add(x.End(), ")")
 					rep.AtomicWraps++
@@ -441,6 +443,44 @@ func bumpGoDirective(gomod string) error {
 		lines = append(lines, "go 1.18")
 	}
 	return os.WriteFile(gomod, []byte(strings.Join(lines, "\n")), 0o644)
+}
+
+// hasSyncCall: the statement contains (outside nested function literals) a call
+// that looks like a synchronisation operation.
+func hasSyncCall(st ast.Stmt) bool {
+	found := false
+	ast.Inspect(st, func(n ast.Node) bool {
+		if found {
+			return false
+		}
+		switch x := n.(type) {
+		case *ast.FuncLit:
+			return false
+		case *ast.BlockStmt:
+			if n != st {
+				return false // only the statement's own header/expressions
+			}
+		case *ast.CallExpr:
+			if sel, ok := x.Fun.(*ast.SelectorExpr); ok {
+				if id, ok := sel.X.(*ast.Ident); ok && id.Name == "atomic" {
+					found = true
+					return false
+				}
+				na := len(x.Args)
+				switch name := sel.Sel.Name; {
+				case (name == "Lock" || name == "Unlock" || name == "RLock" || name == "RUnlock" || name == "TryLock" || name == "Get") && na == 0,
+					name == "Load" && na <= 1,
+					(name == "Store" || name == "LoadOrStore") && (na == 1 || na == 2),
+					(name == "Swap" || name == "Put" || name == "Do" || name == "LoadAndDelete") && na == 1,
+					name == "CompareAndSwap" && na == 2:
+					found = true
+					return false
+				}
+			}
+		}
+		return true
+	})
+	return found
 }
 
 // isAtomicValueCall recognises, syntactically, atomic operations that yield a
